@@ -303,3 +303,51 @@ Theorem C15_client_monitor_accepts_model : forall p sc evs,
   cholds p sc evs (cmodel_trace p sc evs) (length (pend (cmodel_final p sc evs))) = true.
 Proof. exact client_monitor_accepts_model. Qed.
 Print Assumptions C15_client_monitor_accepts_model.
+
+(* ================================================================================================
+   The layer above the admin service: GoogleProvider (internal/auth/providers/google.go), built by
+   NewGoogleProvider with ONE breaker shared with its GoogleAdminService. [OValidate looks email] is
+   ValidateGroupMembership (looks = the groups asked, each with the group cache's answer, an oracle),
+   [OPopulate g] is PopulateMembers, the cache's fill function.
+   ================================================================================================ *)
+
+(* An uncached membership question is exactly CheckMemberships for all groups — every request it
+   causes is a Call of the breaker and nothing but the cache and the group list decides whether it
+   is made (in particular no state mirrored from the breaker); a fully cached one sends nothing. *)
+Theorem C15_provider_validate_goes_through_breaker : forall looks email,
+  (looks = [] -> validate_prog looks email = Ret (ROk [])) /\
+  (looks <> [] -> looks_uncached looks = true ->
+     validate_prog looks email = check_prog (map fst looks) email []) /\
+  (looks <> [] -> looks_uncached looks = false -> exists l, validate_prog looks email = Ret (ROk l)).
+Proof. exact validate_goes_through_breaker. Qed.
+Print Assumptions C15_provider_validate_goes_through_breaker.
+
+(* "... until the back-off deadline; THEN, half-open, it admits ...": in any reachable state whose
+   breaker is open with the deadline strictly passed and a free half-open slot, the next operation
+   that needs the directory reaches it — its first Call announces half-open and is admitted as a
+   probe. Stated for every operation whose program starts with a request, and for an uncached
+   membership question in particular. *)
+Theorem C15_client_probe_after_deadline : forall trip reset backoff hom F dir evs o q rej k,
+  let s := sexec trip reset backoff hom F dir evs in
+  prog_of F o = Req q rej k ->
+  st (br s) = Open -> expires (br s) < now (br s) -> cur (cnt (br s)) < half_open_max hom ->
+  let s' := sstep_st trip reset backoff hom F dir s (Begin o) in
+  let ob := snd (sstep trip reset backoff hom F dir s (Begin o)) in
+  so_req ob = Some (nops s, nreq s, q) /\ so_done ob = None /\
+  st (br s') = HalfOpen /\ gen (br s') = S (gen (br s)) /\
+  exists b, so_start ob = Some b /\ o_adm b = Some true /\ o_ran b = true /\ o_hooks b = [HState Open HalfOpen].
+Proof. intros trip reset backoff hom F dir evs o q rej k s. exact (probe_after_deadline trip reset backoff hom F dir s o q rej k). Qed.
+Print Assumptions C15_client_probe_after_deadline.
+
+Theorem C15_provider_uncached_question_probes_after_deadline : forall trip reset backoff hom F dir evs g c looks email,
+  let s := sexec trip reset backoff hom F dir evs in
+  looks_uncached ((g, c) :: looks) = true ->
+  st (br s) = Open -> expires (br s) < now (br s) -> cur (cnt (br s)) < half_open_max hom ->
+  let o := OValidate ((g, c) :: looks) email in
+  let s' := sstep_st trip reset backoff hom F dir s (Begin o) in
+  let ob := snd (sstep trip reset backoff hom F dir s (Begin o)) in
+  so_req ob = Some (nops s, nreq s, RHas g email) /\ so_done ob = None /\
+  st (br s') = HalfOpen /\ gen (br s') = S (gen (br s)) /\
+  exists b, so_start ob = Some b /\ o_adm b = Some true /\ o_ran b = true /\ o_hooks b = [HState Open HalfOpen].
+Proof. exact validate_probe_after_deadline. Qed.
+Print Assumptions C15_provider_uncached_question_probes_after_deadline.
